@@ -340,6 +340,69 @@ pub fn run(ctx: &Ctx) -> i32 {
                 }
             }
         }
+        // several identifiers with blocks over the same field, joined by `and`: each block must
+        // be satisfied by some element ON ITS OWN (its keys within one element), also after the
+        // optimiser has merged the blocks
+        if shard == 1 {
+            let b = |k: &str, v: &str| (Key::plain(k), RVal::Str(v.into()));
+            let families: Vec<(&str, Vec<Entries>)> = vec![
+                ("two-key block + two one-key blocks", vec![vec![b("b", "v"), b("c", "w")], vec![b("b", "v")], vec![b("c", "w")]]),
+                ("two two-key blocks + one-key block", vec![vec![b("b", "v"), b("c", "w")], vec![b("b", "v"), b("c", "x")], vec![b("b", "v*")]]),
+                ("three one-key blocks", vec![vec![b("b", "v")], vec![b("c", "w")], vec![b("b", "vw")]]),
+                ("block + negated-key block + block", vec![vec![b("b", "v"), b("c", "w")], vec![(Key::with("b", KMod::Not), RVal::Str("w".into()))], vec![b("c", "w")]]),
+            ];
+            let elems: Vec<DVal> = vec![
+                DVal::Obj(vec![]),
+                DVal::obj(vec![("b", DVal::s("v"))]),
+                DVal::obj(vec![("c", DVal::s("w"))]),
+                DVal::obj(vec![("b", DVal::s("v")), ("c", DVal::s("w"))]),
+                DVal::obj(vec![("b", DVal::s("v")), ("c", DVal::s("x"))]),
+                DVal::obj(vec![("b", DVal::s("w")), ("c", DVal::s("w"))]),
+                DVal::obj(vec![("b", DVal::s("vw"))]),
+            ];
+            let mut arrays: Vec<DVal> = elems.clone();
+            for a in &elems {
+                arrays.push(DVal::Arr(vec![a.clone()]));
+                for b2 in &elems {
+                    arrays.push(DVal::Arr(vec![a.clone(), b2.clone()]));
+                    for c in &elems {
+                        arrays.push(DVal::Arr(vec![a.clone(), b2.clone(), c.clone()]));
+                    }
+                }
+            }
+            for (fname, blocks) in &families {
+                let idents: Vec<(String, Ident)> = blocks.iter().enumerate().map(|(i, es)| (format!("I{}", i), Ident::Map(vec![(Key::plain("a"), RVal::Map(es.clone()))]))).collect();
+                let mut cond = Cond::id("I0");
+                for i in 1..idents.len() {
+                    cond = Cond::and(cond, Cond::id(&format!("I{}", i)));
+                }
+                let ast = RuleAst { idents, cond, tp: vec![], tn: vec![] };
+                let Some(text) = ast.to_text() else { continue };
+                let Some(rule) = eng::load_ok(&text) else { continue };
+                let opts: Vec<(eng::Sw, tau_engine::Rule)> = [eng::Sw(15), eng::Sw(3), eng::Sw(2)].iter().filter_map(|s| eng::optimise(&rule, *s).ok().map(|r| (*s, r))).collect();
+                for av in &arrays {
+                    let doc = DVal::obj(vec![("a", av.clone())]);
+                    let m = to_yaml_map(&doc);
+                    let exp = rf.eval_rule(&ast, &doc);
+                    rep.evaluations += 1;
+                    rep.count("merged_block_cells");
+                    rep.nontrivial_key(&format!("MB|{}|{}", fname, doc.to_json_text()));
+                    let g = eng::solve3(&rule, &m).unwrap_or(9);
+                    if g > 2 || refi::from_code(g) & exp == 0 {
+                        rep.violation("nested-array", &format!("c10-merged-blocks:{}", fname), &format!("blocks over one field ({}) over {}: engine {} , 'some element satisfies each block' gives {}", fname, doc.to_json_text(), g, ts_name(exp)), mon::case(&text, &doc, None, json!(refi::verdict(exp)), json!(g == 1), json!({})));
+                    }
+                    if let Some(want) = refi::verdict(exp) {
+                        for (sw, o) in &opts {
+                            rep.evaluations += 1;
+                            if eng::matches(o, &m).unwrap_or(!want) != want {
+                                rep.violation("nested-array", &format!("c10-merged-blocks-opt:{}", fname), &format!("optimised [{}] blocks over one field ({}) over {} differ", sw.name(), fname, doc.to_json_text()), mon::case(&text, &doc, Some(*sw), json!(want), json!(!want), json!({})));
+                                break;
+                            }
+                        }
+                    }
+                }
+            }
+        }
         // arbitrary key strings: totality, and nothing fabricated
         let alpha: Vec<char> = "ab[]..012-9 é".chars().collect();
         for _ in 0..ctx.size(4000, 60000) {
